@@ -145,6 +145,7 @@ impl Monitors {
                         Action::Advance { .. } => 9,
                         Action::ArmLaunchFail { .. } => 10,
                         Action::AgeWorker { .. } => 17,
+                        Action::ArmSlowStop { .. } => 18,
                         Action::Req { .. } => 11,
                         Action::AnswerFlush => 12,
                         Action::AnswerPrune => 13,
@@ -387,7 +388,8 @@ impl Monitors {
                         // was it open when the message arrived? it is if it ended in this step
                         // by cancel or is still open
                         let ended_now_by_cancel = stops_this_step.contains(&i);
-                        if e.open && !ended_now_by_cancel {
+                        // (an execution that got its stop signal earlier and is still dying counts as told)
+                        if e.open && !ended_now_by_cancel && e.stopped.is_none() {
                             let prop = if self.canceled_tasks.contains(&e.t) {
                                 "C08"
                             } else {
@@ -533,6 +535,9 @@ impl Monitors {
             && sim.pending_prunes.is_empty()
             && !sim.inc.server.need_scheduling()
             && sim.clients.iter().all(|c| c.state != ClientState::Waiting)
+            // a worker that has left its loop but whose connection is not closed yet: the
+            // server still has to learn that it is gone (an event in flight)
+            && sim.workers.values().all(|w| !w.stopped)
         {
             self.count("rest_points", 1);
             let vnow = sim.vnow_s();
